@@ -38,6 +38,7 @@ RULES = {
     "W6": R3.rule_W6,
     "W7": R3.rule_W7,
     "W8": R3.rule_W8,
+    "T21": R3.rule_T21,
     "T14b": R3.rule_T14b,
     "G10": R3.rule_G10,
     "G9": R3.rule_G9,
@@ -202,13 +203,13 @@ PROPS = {
         "store primitives rewrite cells (W1). Structural identity after compaction is not decided. Also (D2): the compaction's look-ups slice the raw heap only with rebased bounds (must-analysis: both bounds of a slice, every definition of a local, every call site of a parameter) - the root look-ups of optimize() must not reach cells in front of the index list. Also (G9): the reachability and copy passes construct only the reviewed errors (corrupt cell, iteration limit, unmapped address), each at most as often as reviewed - no further reason to refuse data that must be preserved.",
     },
     "C04": {
-        "rules": ["T10", "A2", "G5", "T18", "D11", "D7"],
+        "rules": ["T10", "A2", "G5", "T18", "D11", "D7", "T21"],
         "claim": "Decides the attribution clause of C04, not the tree shape: every one of the 69 Definition handlers (except the reviewed "
         "Group / ElseJump / Drop) records at least one instruction with Some(index of the node it handles), and on every path through "
         "the builder each emitted instruction gets exactly one metadata record (so an attribution can be neither lost nor doubled); and the 'no node is "
         "shared or lies on a cycle' clause for everything build accepts: build() itself walks the links from the root, marks visited nodes and returns Err "
         "for a node reached twice before it emits anything (G5). That the in-order walk of the accepted tree is the token stream is value-dependent parser "
-        "bookkeeping and is not decided. Also (T18): an arm of parse() that computes a shifted id for the node it creates (because a synthetic List node may be inserted in front of it) records that id, not the unshifted one, in the loop-carried parser state - so the tokens that follow are linked under the node that was meant, not under the List node outside the brackets (a necessary condition of 'child and parent links agree / the in-order walk is the token order'). Also (D11): every build node is stored at the slot of the parse node it was constructed for, so each operand schedules and emits itself (none is silently replaced by its sibling). Also (D7): only the else-chain handler forwards a node's conditional_parent; a branch registered with a parent that never schedules it would get no instruction attributed.",
+        "bookkeeping and is not decided. Also (T18): an arm of parse() that computes a shifted id for the node it creates (because a synthetic List node may be inserted in front of it) records that id, not the unshifted one, in the loop-carried parser state - so the tokens that follow are linked under the node that was meant, not under the List node outside the brackets (a necessary condition of 'child and parent links agree / the in-order walk is the token order'). Also (D11): every build node is stored at the slot of the parse node it was constructed for, so each operand schedules and emits itself (none is silently replaced by its sibling). Also (D7): only the else-chain handler forwards a node's conditional_parent; a branch registered with a parent that never schedules it would get no instruction attributed. Also (T21): a handler that dispatches on the pair of child links never hides one link behind a wildcard in an arm that schedules the other, so a node with two children has both subtrees scheduled and attributed.",
     },
     "C05": {
         "rules": ["A2", "D4", "T1", "T11", "D7", "A10", "G5", "T20"],
